@@ -1239,22 +1239,44 @@ Definition r25 : val := VR (real_of_bits 4612811918334230528).   (* 2.5 *)
 Definition m22 : val := VL [VL [VI 1; VI 2]; VL [VI 3; VI 4]].
 Definition a223 : val := VL [VL [VL [VI 1; VI 2; VI 3]; VL [VI 4; VI 5; VI 6]]; VL [VL [VI 7; VI 8; VI 9]; VL [VI 10; VI 11; VI 12]]].
 
-Lemma refuted_witnesses :
-  refutes_m "homogenise" "eval_monad_first" (VL [VI 1; r25]) &&
-  refutes_d "broadcast" "eval_dyad_add" (VL [VI 1; VI 2]) m22 &&
-  refutes_d "no-object-loop" "eval_dyad_minimum" (VL [VI 1; VL [VI 2; VI 3]]) (VL [VI 1; VL [VI 2; VI 3]]) &&
-  refutes_d "take-matrix" "eval_dyad_take" (VI 3) m22 &&
-  refutes_m "first-of-string" "eval_monad_first" (VS [97; 98; 99]) &&
-  refutes_m "floor-overflow" "eval_monad_floor" (VR (real_of_bits 6103021453049119613)) &&
-  refutes_d "match-tolerance" "eval_dyad_match" (VI 100000) (VI 100001) &&
-  refutes_d "reshape-char-0" "eval_dyad_reshape" (VI 0) (VC 97) &&
-  refutes_d "reshape-nested" "eval_dyad_reshape" (VL [VI 2]) (VL [VL [VI 1; VI 2; VI 3]]) &&
-  refutes_d "find-nested" "eval_dyad_find" (VL [VL [VI 1; VI 2]; VL [VI 1; VI 1]]) (VI 1) &&
-  refutes_d "find-symbol" "eval_dyad_find" (VL [VY [97]; VY [98]]) (VY [97]) &&
-  refutes_d "join-ragged" "eval_dyad_join" m22 a223 &&
-  refutes_m "char-of-empty" "eval_monad_char" (VL []) &&
-  refutes_m "expand-empty" "eval_monad_expand_where" (VL []) = true.
+Lemma refuted_homogenise : refutes_m "homogenise" "eval_monad_first" (VL [VI 1; r25]) = true.
 Proof. vm_compute. reflexivity. Qed.
+Lemma refuted_broadcast : refutes_d "broadcast" "eval_dyad_add" (VL [VI 1; VI 2]) m22 = true.
+Proof. vm_compute. reflexivity. Qed.
+Lemma refuted_no_object_loop : refutes_d "no-object-loop" "eval_dyad_minimum" (VL [VI 1; VL [VI 2; VI 3]]) (VL [VI 1; VL [VI 2; VI 3]]) = true.
+Proof. vm_compute. reflexivity. Qed.
+Lemma refuted_take_matrix : refutes_d "take-matrix" "eval_dyad_take" (VI 3) m22 = true.
+Proof. vm_compute. reflexivity. Qed.
+Lemma refuted_first_of_string : refutes_m "first-of-string" "eval_monad_first" (VS [97; 98; 99]) = true.
+Proof. vm_compute. reflexivity. Qed.
+Lemma refuted_floor_overflow : refutes_m "floor-overflow" "eval_monad_floor" (VR (real_of_bits 6103021453049119613)) = true.
+Proof. vm_compute. reflexivity. Qed.
+Lemma refuted_reshape_char_0 : refutes_d "reshape-char-0" "eval_dyad_reshape" (VI 0) (VC 97) = true.
+Proof. vm_compute. reflexivity. Qed.
+Lemma refuted_reshape_nested : refutes_d "reshape-nested" "eval_dyad_reshape" (VL [VI 2]) (VL [VL [VI 1; VI 2; VI 3]]) = true.
+Proof. vm_compute. reflexivity. Qed.
+Lemma refuted_find_nested : refutes_d "find-nested" "eval_dyad_find" (VL [VL [VI 1; VI 2]; VL [VI 1; VI 1]]) (VI 1) = true.
+Proof. vm_compute. reflexivity. Qed.
+Lemma refuted_find_symbol : refutes_d "find-symbol" "eval_dyad_find" (VL [VY [97]; VY [98]]) (VY [97]) = true.
+Proof. vm_compute. reflexivity. Qed.
+Lemma refuted_join_ragged : refutes_d "join-ragged" "eval_dyad_join" m22 a223 = true.
+Proof. vm_compute. reflexivity. Qed.
+Lemma refuted_char_of_empty : refutes_m "char-of-empty" "eval_monad_char" (VL []) = true.
+Proof. vm_compute. reflexivity. Qed.
+Lemma refuted_expand_empty : refutes_m "expand-empty" "eval_monad_expand_where" (VL []) = true.
+Proof. vm_compute. reflexivity. Qed.
+Lemma refuted_shape_ragged : refutes_m "shape-ragged" "eval_monad_shape" (VL [VI 1; VL [VI 2]]) = true.
+Proof. vm_compute. reflexivity. Qed.
+Lemma refuted_shape_strlike_member : refutes_m "shape-strlike-member" "eval_monad_shape" (VL [VC 97; VC 98]) = true.
+Proof. vm_compute. reflexivity. Qed.
+Lemma refuted_group_sorted_order : refutes_m "group-sorted-order" "eval_monad_groupby" (VS [104; 101; 108; 108; 111; 32; 102; 111; 111]) = true.
+Proof. vm_compute. reflexivity. Qed.
+Lemma refuted_group_non_numeric : refutes_m "group-non-numeric" "eval_monad_groupby" (VL [VI 1; VS [97]]) = true.
+Proof. vm_compute. reflexivity. Qed.
+Lemma refuted_range_string_sorted : refutes_m "range-string-sorted" "eval_monad_range" (VS [104; 101; 108; 108; 111]) = true.
+Proof. vm_compute. reflexivity. Qed.
+Lemma match_ints_without_fix : isclose_gen false (VI 100000) (VI 100001) = true /\ s_same (VI 100000) (VI 100001) = false.
+Proof. vm_compute. split; reflexivity. Qed.
 
 (* the behaviour before the fix: commits, as the model computes it when the regenerated flag is false *)
 Lemma rotate_without_axis0 :
@@ -1880,13 +1902,6 @@ Proof.
   destruct a as [z|r|c|[|c s]|s|[|x l]|]; try reflexivity; try discriminate Hd.
 Qed.
 
-Lemma refuted_witnesses_2 :
-  refutes_m "shape-ragged" "eval_monad_shape" (VL [VI 1; VL [VI 2]]) &&
-  refutes_m "shape-strlike-member" "eval_monad_shape" (VL [VC 97; VC 98]) &&
-  refutes_m "group-sorted-order" "eval_monad_groupby" (VS [104; 101; 108; 108; 111; 32; 102; 111; 111]) &&
-  refutes_m "group-non-numeric" "eval_monad_groupby" (VL [VI 1; VS [97]]) &&
-  refutes_m "range-string-sorted" "eval_monad_range" (VS [104; 101; 108; 108; 111]) = true.
-Proof. vm_compute. reflexivity. Qed.
 
 (* ------------------------------------------------------------------ T1.op for + - * in the form dom -> ~K -> model = spec *)
 Lemma right_num_trees : forall a, is_arr a = false -> forall b, all_right both_num a b = true ->
@@ -2031,4 +2046,182 @@ Proof.
         apply Z.ltb_ge in K1. apply Z.eqb_neq in K2.
         apply take_slice_spec; [exact K2|exact K1|eapply array_size_ge_len; eassumption].
     + apply take_list_spec. rewrite (npdepth_obj _ R). lia.
+Qed.
+
+(* ------------------------------------------------------------------ Match: kg_equal depends only on the abstract value *)
+Lemma list_eqb_app : forall {A} (eq : A -> A -> bool) a1 b1 a2 b2, List.length a1 = List.length b1 ->
+  list_eqb eq (a1 ++ a2) (b1 ++ b2) = list_eqb eq a1 b1 && list_eqb eq a2 b2.
+Proof.
+  intros A eq. induction a1 as [|x a1 IH]; intros b1 a2 b2 H; destruct b1 as [|y b1]; try discriminate H; [reflexivity|].
+  cbn [app list_eqb]. rewrite IH by (cbn in H; lia). rewrite andb_assoc. reflexivity.
+Qed.
+
+Lemma flat_length : forall s x, rshape x = Some s -> List.length (flat (List.length s) x) = prodn s.
+Proof.
+  induction s as [|d s IH]; intros x H.
+  - reflexivity.
+  - destruct (rshape_cons_list _ _ _ H) as [l ->]. destruct (rshape_list _ _ H) as [s0 [E F]]. inversion E. subst s0 d.
+    cbn [List.length flat prodn]. clear H E. induction l as [|y l IHl]; [reflexivity|].
+    inversion F as [|? ? Hy Hl]. subst. cbn [flat_map List.length]. rewrite app_length, (IH y Hy), (IHl Hl). lia.
+Qed.
+
+Lemma same2_len_false : forall f la lb, List.length la <> List.length lb -> same2 f la lb = false.
+Proof.
+  intros f. induction la as [|x la IH]; intros lb H; destruct lb as [|y lb]; try reflexivity; [congruence|].
+  cbn [same2]. rewrite IH by (cbn in H; lia). apply andb_false_r.
+Qed.
+
+Lemma rect_equal_same : forall sa a, rshape a = Some sa -> forall sb b, rshape b = Some sb ->
+  list_eqb Nat.eqb sa sb && list_eqb num_eqb (flat (List.length sa) a) (flat (List.length sb) b) = s_same a b.
+Proof.
+  induction sa as [|d s IH]; intros a Ha sb b Hb.
+  - pose proof (rshape_nil_atom _ Ha) as Na. destruct sb as [|d' s'].
+    + pose proof (rshape_nil_atom _ Hb) as Nb.
+      destruct a; try discriminate Na; destruct b; try discriminate Nb; cbn; rewrite andb_true_r; reflexivity.
+    + destruct (rshape_cons_list _ _ _ Hb) as [lb ->]. destruct a; try discriminate Na; reflexivity.
+  - destruct (rshape_cons_list _ _ _ Ha) as [la ->]. destruct (rshape_list _ _ Ha) as [s0 [E Fa]]. inversion E. subst s0 d.
+    destruct sb as [|d' s'].
+    + pose proof (rshape_nil_atom _ Hb) as Nb. destruct b; try discriminate Nb; reflexivity.
+    + destruct (rshape_cons_list _ _ _ Hb) as [lb ->]. destruct (rshape_list _ _ Hb) as [s0' [E' Fb]]. inversion E'. subst s0' d'.
+      change (s_same (VL la) (VL lb)) with (same2 s_same la lb).
+      cbn [List.length flat list_eqb].
+      destruct (list_eqb Nat.eqb s s') eqn:Es.
+      * apply nat_list_eqb_eq in Es. subst s'. rewrite andb_true_r.
+        clear Ha Hb E E'. revert lb Fb. induction la as [|x la IHl]; intros lb Fb; destruct lb as [|y lb]; try reflexivity.
+        inversion Fa as [|? ? Hx Hla]. inversion Fb as [|? ? Hy Hlb]. subst.
+        cbn [List.length Nat.eqb flat_map same2].
+        rewrite list_eqb_app by (rewrite (flat_length _ _ Hx), (flat_length _ _ Hy); reflexivity).
+        rewrite <- (IH x Hx s y Hy). rewrite nat_list_eqb_refl. cbn [andb].
+        rewrite <- (IHl Hla lb Hlb).
+        destruct (list_eqb num_eqb (flat (List.length s) x) (flat (List.length s) y)); destruct (List.length la =? List.length lb)%nat; reflexivity.
+      * rewrite andb_false_r. cbn [andb]. symmetry.
+        destruct la as [|x la]; destruct lb as [|y lb]; try reflexivity.
+        -- exfalso. cbn in Ha, Hb. inversion Ha. inversion Hb. subst. discriminate Es.
+        -- inversion Fa as [|? ? Hx Hla]. inversion Fb as [|? ? Hy Hlb]. subst.
+           cbn [same2]. rewrite <- (IH x Hx s' y Hy). rewrite Es. reflexivity.
+Qed.
+
+Fixpoint vlist (rs : list rep) (l : list val) : bool :=
+  match rs, l with
+  | [], [] => true
+  | r :: rs', x :: l' => valid_rep x r && vlist rs' l'
+  | _, _ => false
+  end.
+
+Lemma valid_members : forall l r, valid_rep (VL l) r = true -> vlist (member_reps (VL l) r) l = true.
+Proof.
+  intros l r H. destruct r as [| |rs].
+  - discriminate H.
+  - cbn [valid_rep] in H. destruct (is_rect_list _ H) as [sh R]. destruct (rshape_list _ _ R) as [s [_ F]].
+    cbn [member_reps]. clear H R. induction l as [|x l IH]; [reflexivity|].
+    inversion F as [|? ? Hx Hl]. subst. cbn [map vlist]. rewrite (IH Hl). rewrite andb_true_r.
+    destruct x as [z|q|c|t|t|l0|]; try (cbn in Hx; discriminate Hx); try reflexivity.
+    cbn [row_rep valid_rep]. apply (is_rect_of_shape _ _ Hx).
+  - exact H.
+Qed.
+
+Lemma isclose_exact : kg_equal_ints_exact = true -> forall a b, is_num a = true -> is_num b = true ->
+  k_close a b = false -> isclose a b = num_eqb a b.
+Proof.
+  intros Hf a b Na Nb Hk. unfold isclose in *.
+  assert (Hk' : negb (num_eqb a b) && isclose_gen kg_equal_ints_exact a b = false).
+  { destruct a; try discriminate Na; destruct b; try discriminate Nb; cbn [k_close is_num andb] in Hk; exact Hk. }
+  rewrite Hf in *.
+  destruct a as [x|x| | | | |]; try discriminate Na; destruct b as [y|y| | | | |]; try discriminate Nb;
+    cbn [isclose_gen toR num_eqb] in *; try reflexivity;
+    match goal with |- ?e || ?t = ?e => destruct e; [reflexivity|cbn [negb andb orb] in *; exact Hk'] end.
+Qed.
+
+Lemma eq_loop_spec : forall eqf la lb ras rbs,
+  List.length la = List.length lb -> vlist ras la = true -> vlist rbs lb = true ->
+  match_kinds_ok (VL la) (VL lb) = true -> k_close (VL la) (VL lb) = false ->
+  (forall x y rx ry, In x la -> In y lb -> valid_rep x rx = true -> valid_rep y ry = true ->
+     match_kinds_ok x y = true -> k_close x y = false -> eqf x rx y ry = Ok (s_same x y)) ->
+  eq_loop eqf la ras lb rbs = Ok (same2 s_same la lb).
+Proof.
+  intros eqf. induction la as [|x la IHl]; intros lb ras rbs EL Wa Wb Hm Hk Hel; destruct lb as [|y lb]; try discriminate EL; [reflexivity|].
+  destruct ras as [|rx ras]; [discriminate Wa|]. destruct rbs as [|ry rbs]; [discriminate Wb|].
+  cbn [vlist] in Wa, Wb. apply andb_true_iff in Wa. destruct Wa as [Vx Wa]. apply andb_true_iff in Wb. destruct Wb as [Vy Wb].
+  cbn [match_kinds_ok all2] in Hm. apply andb_true_iff in Hm. destruct Hm as [Hmx Hm].
+  cbn [k_close any2] in Hk. apply orb_false_iff in Hk. destruct Hk as [Hkx Hk].
+  cbn [eq_loop same2]. rewrite (Hel x y rx ry (or_introl eq_refl) (or_introl eq_refl) Vx Vy Hmx Hkx). cbn [bind].
+  destruct (s_same x y); [|reflexivity]. cbn [andb].
+  apply IHl; try assumption; [cbn in EL; lia|].
+  intros x' y' rx' ry' Hx' Hy'. apply Hel; right; assumption.
+Qed.
+
+Section KgEqual.
+  Hypothesis Hints : kg_equal_ints_exact = true.
+
+  Theorem kg_equal_rep_spec : forall fuel a ra b rb,
+    (depth a + depth b < fuel)%nat ->
+    valid_rep a ra = true -> valid_rep b rb = true ->
+    match_kinds_ok a b = true -> k_close a b = false ->
+    kg_equal_rep false fuel a ra b rb = Ok (s_same a b).
+  Proof.
+    induction fuel as [|f' IH]; intros a ra b rb Hd Va Vb Hm Hk; [lia|].
+    destruct (is_arr a) eqn:Aa; destruct (is_arr b) eqn:Ab.
+    - destruct (is_arr_true _ Aa) as [la ->]. destruct (is_arr_true _ Ab) as [lb ->].
+      cbn [kg_equal_rep andb].
+      assert (General : (if negb (List.length la =? List.length lb)%nat then Ok false
+               else eq_loop (kg_equal_rep false f') la (member_reps (VL la) ra) lb (member_reps (VL lb) rb)) = Ok (s_same (VL la) (VL lb))).
+      { change (s_same (VL la) (VL lb)) with (same2 s_same la lb).
+        destruct (List.length la =? List.length lb)%nat eqn:EL; cbn [negb].
+        - apply Nat.eqb_eq in EL.
+          apply eq_loop_spec; try assumption; [apply valid_members; exact Va|apply valid_members; exact Vb|].
+          intros x y rx ry Hx Hy Vx Vy Hmx Hkx. pose proof (depth_in _ _ Hx). pose proof (depth_in _ _ Hy).
+          apply IH; try assumption. lia.
+        - apply Nat.eqb_neq in EL. rewrite same2_len_false by exact EL. reflexivity. }
+      destruct ra as [| |ras]; try exact General; destruct rb as [| |rbs]; try exact General.
+      (* RN, RN: np.array_equal *)
+      cbn [valid_rep] in Va, Vb. destruct (is_rect_list _ Va) as [sa Ra]. destruct (is_rect_list _ Vb) as [sb Rb].
+      rewrite Ra, Rb. unfold np_flat. rewrite (npdepth_rect _ _ Ra), (npdepth_rect _ _ Rb).
+      cbn [shape_eqb]. rewrite (rect_equal_same sa _ Ra sb _ Rb). reflexivity.
+    - destruct (is_arr_true _ Aa) as [la ->]. destruct b; try discriminate Ab; reflexivity.
+    - destruct (is_arr_true _ Ab) as [lb ->]. destruct a; try discriminate Aa; reflexivity.
+    - destruct a as [x|x|x|x|x| |]; try discriminate Aa; destruct b as [y|y|y|y|y| |]; try discriminate Ab;
+        try (cbn in Hm; discriminate Hm);
+        try (cbn [kg_equal_rep is_num andb]; rewrite (isclose_exact Hints) by (reflexivity || exact Hk); reflexivity).
+      + cbn [kg_equal_rep is_num andb sc_equal text_of s_same]. unfold zs_eqb. cbn [list_eqb]. rewrite andb_true_r.
+        destruct (x =? y); reflexivity.
+      + cbn [kg_equal_rep is_num andb sc_equal text_of s_same]. destruct (zs_eqb x y); reflexivity.
+      + cbn [kg_equal_rep is_num andb sc_equal s_same]. destruct (zs_eqb x y); reflexivity.
+  Qed.
+
+  (* Match and Find do not depend on how the operands are held in memory *)
+  Corollary kg_equal_rep_independent : forall fuel a ra ra' b rb rb',
+    (depth a + depth b < fuel)%nat ->
+    valid_rep a ra = true -> valid_rep a ra' = true -> valid_rep b rb = true -> valid_rep b rb' = true ->
+    match_kinds_ok a b = true -> k_close a b = false ->
+    kg_equal_rep false fuel a ra b rb = kg_equal_rep false fuel a ra' b rb'.
+  Proof. intros. rewrite !kg_equal_rep_spec by assumption. reflexivity. Qed.
+End KgEqual.
+
+Lemma canon_rep_valid : forall v, valid_rep v (canon_rep v) = true.
+Proof.
+  induction v using val_ind'; try reflexivity.
+  cbn [canon_rep]. destruct (is_rect (VL l)) eqn:R; [exact R|].
+  change (vlist (map canon_rep l) l = true). clear R. induction l as [|x l IHl]; [reflexivity|].
+  inversion H as [|? ? Hx Hl]. subst. cbn [map vlist]. rewrite Hx. cbn [andb]. apply IHl. exact Hl.
+Qed.
+
+(* the shape early exit (seeded change) makes Match depend on the representation: a slice of a mixed list against a literal *)
+Lemma shape_exit_refuted :
+  let a := VL [VL [VI 1; VI 2]; VL [VI 3; VI 4]] in
+  valid_rep a (RO [RN; RN]) = true /\ valid_rep a RN = true /\
+  kg_equal_rep true 10 a (RO [RN; RN]) a RN = Ok false /\ kg_equal_rep false 10 a (RO [RN; RN]) a RN = Ok true /\ s_same a a = true.
+Proof. vm_compute. repeat split; reflexivity. Qed.
+
+Local Open Scope string_scope.
+Local Open Scope Z_scope.
+Lemma match_holds : kg_equal_ints_exact = true -> kg_equal_no_shape_exit = true ->
+  forall a b, canonical a && canonical b = true -> dom_dyad "eval_dyad_match" a b = true ->
+  m_dyad "eval_dyad_match" a b = s_dyad "eval_dyad_match" a b.
+Proof.
+  intros Hi Hs a b Hc Hd. unfold m_dyad. rewrite Hc. cbn [negb].
+  change (m_match a b = Ok (b2v (s_same a b))).
+  change (dom_dyad "eval_dyad_match" a b) with (match_kinds_ok a b && negb (k_close a b)) in Hd.
+  apply andb_true_iff in Hd. destruct Hd as [Hm Hk]. apply negb_true_iff in Hk.
+  unfold m_match, kg_equal. rewrite Hs. cbn [negb].
+  rewrite (kg_equal_rep_spec Hi); try assumption; try apply canon_rep_valid; [reflexivity|apply fuel2_enough].
 Qed.
